@@ -91,9 +91,9 @@ def attachTo (t : VT) (w h : Nat) (fg bg : UInt8) : Res :=
 
 /-- `updateDataOffset`: a `uint32` expression converted to `uint` -/
 def updateDataOffset (t : VT) : VT :=
-  { t with dataOffset :=
-      u32 (u32 (u32 (t.viewportY + sub32 t.cursorY 1) * u32 (t.viewportWidth * 3))
-           + u32 (sub32 t.cursorX 1 * 3)) }
+  let off := u32 (u32 (u32 (t.viewportY + sub32 t.cursorY 1) * u32 (t.viewportWidth * 3))
+                  + u32 (sub32 t.cursorX 1 * 3))
+  { t with dataOffset := off }
 
 /-- `SetCursorPosition(x, y)` -/
 def setCursorPosition (t : VT) (x y : Nat) : VT :=
@@ -120,35 +120,38 @@ def blankN (fg bg : UInt8) : (n off : Nat) → Array UInt8 → Option (Array UIn
   | 0, _, d => some d
   | n + 1, off, d => (store3 d off 32 fg bg).bind fun d => blankN fg bg n (off + 3) d
 
+/-- the buffer-scroll branch of `lf`: copy the viewport's lines up by one, blank the last one.
+`int` arithmetic on 32-bit factors. -/
+def scrollData (t : VT) : Option (Array UInt8) :=
+  let stride := u32 (t.viewportWidth * 3)
+  let startOffset := t.viewportY * stride
+  let endOffset := sub32 (u32 (t.viewportY + t.viewportHeight)) 1 * stride
+  (copyUp stride (endOffset - startOffset) startOffset t.data).bind fun d =>
+    blankN t.defaultFg t.defaultBg ((stride + 2) / 3) endOffset d
+
+/-- console calls are made only while the terminal is Active (`cs` newest first) -/
+def emit (t : VT) (cs : List Call) : VT :=
+  if t.active then { t with out := cs ++ t.out } else t
+
+/-- "Sync console" in `lf`: `cons.Scroll(ScrollDirUp, 1)` then `cons.Fill(1, cursorY, termWidth, 1, …)` -/
+def syncScroll (t : VT) : VT :=
+  emit t [.fill 1 t.cursorY t.termWidth 1 t.defaultFg t.defaultBg, .scroll Firefly.Gen.C17.scrollDirUp 1]
+
 /-- `lf(withCR)` -/
 def lf (t : VT) (withCR : Bool) : Res :=
   let t := if withCR then { t with cursorX := 1 } else t
   if u32 (t.cursorY + 1) ≤ t.viewportHeight then
     .ok (updateDataOffset { t with cursorY := u32 (t.cursorY + 1) })
+  else if u32 (t.viewportY + t.viewportHeight) < t.termHeight then
+    .ok (updateDataOffset (syncScroll { t with viewportY := u32 (t.viewportY + 1) }))
   else
-    let scrolled : Option VT :=
-      if u32 (t.viewportY + t.viewportHeight) < t.termHeight then
-        some { t with viewportY := u32 (t.viewportY + 1) }
-      else
-        -- int arithmetic on 32-bit factors
-        let stride := u32 (t.viewportWidth * 3)
-        let startOffset := t.viewportY * stride
-        let endOffset := sub32 (u32 (t.viewportY + t.viewportHeight)) 1 * stride
-        ((copyUp stride (endOffset - startOffset) startOffset t.data).bind fun d =>
-          blankN t.defaultFg t.defaultBg ((stride + 2) / 3) endOffset d).map fun d =>
-            { t with data := d }
-    match scrolled with
+    match scrollData t with
     | none => .panic
-    | some t =>
-      let t := if t.active then
-          { t with out := .fill 1 t.cursorY t.termWidth 1 t.defaultFg t.defaultBg ::
-                          .scroll Firefly.Gen.C17.scrollDirUp 1 :: t.out }
-        else t
-      .ok (updateDataOffset t)
+    | some d => .ok (updateDataOffset (syncScroll { t with data := d }))
 
 /-- `doWrite(b, advanceCursor)` -/
 def doWrite (t : VT) (b : UInt8) (advance : Bool) : Res :=
-  let t := if t.active then { t with out := .write b t.curFg t.curBg t.cursorX t.cursorY :: t.out } else t
+  let t := emit t [.write b t.curFg t.curBg t.cursorX t.cursorY]
   match store3 t.data t.dataOffset b t.curFg t.curBg with
   | none => .panic
   | some d =>
